@@ -72,6 +72,24 @@ MUTANTS = [
         live_out |= self.out[n]
       live_in = gen | (live_out - kill)''',
      ['malt.pyct.static_analysis.liveness.Analyzer.visit_node']),
+    ('c02-input-only-ignores-live-out', 'malt/converters/control_flow.py',
+     'input_only = basic_scope_vars & live_in - live_out', 'input_only = basic_scope_vars & live_in',
+     ['malt.converters.control_flow.ControlFlowTransformer._get_block_vars']),
+    ('c02-basic-drops-nonlocals', 'malt/converters/control_flow.py',
+     'if s in live_in or s in live_out or s in nonlocals:', 'if s in live_in or s in live_out:',
+     ['malt.converters.control_flow.ControlFlowTransformer._get_block_basic_vars']),
+    ('c02-nouts-all', 'malt/converters/control_flow.py',
+     'nouts = len(scope_vars) - len(input_only)', 'nouts = len(scope_vars)',
+     ['malt.converters.control_flow.ControlFlowTransformer._get_block_vars']),
+    ('c02-composite-any-support', 'malt/converters/control_flow.py',
+     'if not all(sss in live_in for sss in support_set_symbols):', 'if not any(sss in live_in for sss in support_set_symbols):',
+     ['malt.converters.control_flow.ControlFlowTransformer._get_block_composite_vars']),
+    ('c02-undefined-ignores-defined-in', 'malt/converters/control_flow.py',
+     'modified - defined_in - fn_scope.globals - fn_scope.nonlocals)', 'modified - fn_scope.globals - fn_scope.nonlocals)',
+     ['malt.converters.control_flow.ControlFlowTransformer._get_block_vars']),
+    ('c02-outputs-last', 'malt/converters/control_flow.py',
+     'key=lambda v: (v in input_only, v))', 'key=lambda v: (v not in input_only, v))',
+     ['malt.converters.control_flow.ControlFlowTransformer._get_block_vars']),
 ]
 
 DRIVER = r'''
